@@ -39,3 +39,398 @@ def pod_features(pid, tier, seed, rundir, log):
     res["summary"] = f"{sum(1 for i in res['items'] if i['ok'])}/{len(res['items'])} feature combinations build"
     res["samples"] = [f"cargo check -p spl-pod --no-default-features --features {','.join(c) or '(none)'}" for c in combos[:3]]
     return res
+
+
+# --------------------------------------------------------------------------------------------
+# macro-lab: generated crates that exercise the proc-macros through rustc
+# --------------------------------------------------------------------------------------------
+import hashlib, random, re, shutil
+
+HARNESS = os.path.join(VERIF, "harness")
+DRIVER = os.path.join(VERIF, "lean", ".lake", "build", "bin", "spl_driver")
+
+
+def _hexs(b):
+    return b.hex() if b else "-"
+
+
+def _rust_str(s, rng):
+    """Render a Python str as Rust string-literal source text with random valid choices."""
+    out = ['"']
+    for ch in s:
+        r = rng.randrange(10)
+        cp = ord(ch)
+        if ch == '"':
+            out.append('\\"' if r < 7 else "\\x22")
+        elif ch == "\\":
+            out.append("\\\\" if r < 7 else "\\u{5c}")
+        elif ch == "\r":
+            out.append("\\r")
+        elif ch == "\n":
+            out.append("\\n" if r < 7 else "\n")
+        elif ch == "\t" and r < 5:
+            out.append("\\t")
+        elif ch == "\0":
+            out.append("\\0")
+        elif cp < 0x20 or cp == 0x7f:
+            out.append("\\x%02x" % cp)
+        elif r == 9:
+            out.append("\\u{%x}" % cp)
+        else:
+            out.append(ch)
+    out.append('"')
+    return "".join(out)
+
+
+def _rand_text(rng, brace_free=True, maxlen=24):
+    n = rng.choice([0, 1, 3, 8, 15, maxlen])
+    pools = [
+        lambda: chr(rng.randrange(0x20, 0x7f)),
+        lambda: rng.choice(['"', "\\", "'", " ", "\t", "`", "#", "%", "\n"]),
+        lambda: chr(rng.randrange(0xa0, 0x250)),
+        lambda: chr(rng.randrange(0x300, 0x370)),
+        lambda: chr(rng.choice([0x4e2d, 0x6587, 0x1f600, 0x10ffff, 0xfffd, 0x2028, 0x200b, 0xe000])),
+    ]
+    s = ""
+    for _ in range(n):
+        c = rng.choice(pools)()
+        if brace_free and c in "{}":
+            continue
+        if 0xd800 <= ord(c) <= 0xdfff:
+            continue
+        s += c
+    return s
+
+
+def _ident(rng, camel=True):
+    first = "ABCDEFGHJKLMNPQRSTUVWXYZ" if camel else "abcdefghjkmnpqrstuvwxyz"
+    rest = "abcdefghijklmnopqrstuvwxyzABCDEFGHIJKLMNOPQRSTUVWXYZ0123456789_"
+    n = rng.choice([1, 2, 5, 9, 20])
+    return rng.choice(first) + "".join(rng.choice(rest) for _ in range(n - 1))
+
+
+def _hashed_start(name):
+    nonce = 0
+    while True:
+        h = hashlib.sha256(("spl_program_error:" + name).encode() + nonce.to_bytes(4, "little")).digest()
+        d = int.from_bytes(h[13:17], "little")
+        if d >= 7000:
+            return d, nonce
+        nonce += 1
+
+
+def _lab_crate(labdir, deps):
+    os.makedirs(os.path.join(labdir, "src"), exist_ok=True)
+    os.makedirs(os.path.join(labdir, ".cargo"), exist_ok=True)
+    with open(os.path.join(labdir, "Cargo.toml"), "w") as f:
+        f.write('[package]\nname = "spl-verif-macrolab"\nversion = "0.1.0"\nedition = "2021"\npublish = false\n\n[workspace]\n\n[dependencies]\n' + deps +
+                '\n[profile.dev]\nopt-level = 0\ndebug = false\n')
+    with open(os.path.join(labdir, ".cargo", "config.toml"), "w") as f:
+        f.write('[net]\noffline = true\n\n[build]\ntarget-dir = "%s"\n' % os.path.join(BUILD, "cargo"))
+    shutil.copy(os.path.join(HARNESS, "Cargo.lock"), os.path.join(labdir, "Cargo.lock"))
+    shutil.copy(os.path.join(HARNESS, "rust-toolchain.toml"), os.path.join(labdir, "rust-toolchain.toml"))
+
+
+def _build_run(labdir, log):
+    rc, out = _sh(["cargo", "build", "--offline", "--quiet"], cwd=labdir)
+    log.write("$ cargo build (macro-lab %s)\n%s\n" % (labdir, out[-3000:]))
+    if rc != 0:
+        return None, out
+    rc, out2 = _sh([os.path.join(BUILD, "cargo", "debug", "spl-verif-macrolab")], cwd=labdir)
+    if rc != 0:
+        return None, "macro-lab program failed: " + out2[-500:]
+    return out2.split("\n")[:-1], out
+
+
+def _model_lines(cases):
+    p = subprocess.run([DRIVER], input="\n".join(cases) + "\n", stdout=subprocess.PIPE, text=True)
+    return p.stdout.split("\n")[:-1]
+
+
+def _failing_items(out):
+    return sorted(set(int(m) for m in re.findall(r"src/item_(\d+)\.rs", out)))
+
+
+DEPS_ERR = ('spl-program-error = { path = "%s/program-error" }\nsolana-program-error = "3.0.0"\nthiserror = "2.0"\nnum-derive = "0.4"\nnum-traits = "0.2"\nnum_enum = "0.7"\n' % REPO)
+
+
+def macro_lab_c19(pid, tier, seed, rundir, log):
+    """C19: generated error enums through #[spl_program_error], IntoProgramError, ToStr (rustc in the loop)."""
+    rng = random.Random(seed * 7919 + 19)
+    n_items = 40 if tier == "thorough" else 12
+    labdir = os.path.join(BUILD, "macrolab", "C19")
+    _lab_crate(labdir, DEPS_ERR)
+    res = {"name": "macro-lab-C19", "items": [], "violations": [], "ties_broken": [], "evaluations": 0,
+           "distinct_nontrivial": 0, "samples": [], "histogram": {}}
+    items = []
+    used = set()
+    # names 1 and 2 need a non-zero nonce (found once by brute force: value at nonce 0 is below 7000)
+    corpus_names = ["ExampleLibraryError", "NonceErr246485", "NonceErr1050261", "E", "TokenError"]
+    for k in range(n_items):
+        kind = ["spl", "spl_hash", "derive", "tostr", "spl_crate"][k % 5]
+        name = corpus_names[k // 5] if kind == "spl_hash" and k // 5 < len(corpus_names) else _ident(rng)
+        while name in used:
+            name = _ident(rng)
+        used.add(name)
+        nv = rng.choice([1, 2, 3, 5, 12])
+        vs, seen = [], set()
+        nxt = 0
+        for j in range(nv):
+            vn = _ident(rng)
+            while vn in seen:
+                vn = _ident(rng)
+            seen.add(vn)
+            disc = None
+            if kind in ("spl", "derive", "spl_crate") and rng.random() < 0.3 and not (j == 0 and kind == "spl_hash"):
+                nxt = nxt + rng.choice([0, 1, 7, 1000, 4000000000 - nxt if nxt < 3000000000 else 1])
+                disc = nxt
+            msg = None if kind == "tostr" else _rand_text(rng)
+            vs.append((vn, disc, msg))
+            nxt = (disc if disc is not None else nxt) + 1
+        start = _hashed_start(name)[0] if kind == "spl_hash" else None
+        items.append((kind, name, start, vs))
+    # sources
+    main = ["#![allow(dead_code, non_camel_case_types, clippy::all)]", "use solana_program_error::{ProgramError, ToStr};",
+            "fn hx(s: &str) -> String { if s.is_empty() { \"-\".into() } else { s.bytes().map(|b| format!(\"{:02x}\", b)).collect() } }"]
+    cases = []
+    for k, (kind, name, start, vs) in enumerate(items):
+        body = []
+        for (vn, disc, msg) in vs:
+            attrs = "    /// doc\n" if rng.random() < 0.3 else ""
+            if msg is not None:
+                attrs += "    #[error(%s)]\n" % _rust_str(msg, rng)
+            body.append("%s    %s%s," % (attrs, vn, (" = %d" % disc) if disc is not None else ""))
+        if kind == "spl":
+            head = "#[spl_program_error::spl_program_error]\n"
+        elif kind == "spl_crate":
+            head = "#[spl_program_error::spl_program_error(solana_program_error = \"solana_program_error\")]\n"
+        elif kind == "spl_hash":
+            head = "#[spl_program_error::spl_program_error(hash_error_code_start = %d)]\n" % start
+        elif kind == "derive":
+            head = "#[derive(Clone, Debug, Eq, PartialEq, thiserror::Error, num_derive::FromPrimitive, spl_program_error::IntoProgramError, spl_program_error::ToStr)]\n#[repr(u32)]\n"
+        else:
+            head = "#[derive(Clone, Debug, PartialEq, spl_program_error::ToStr)]\n#[repr(u32)]\n"
+        src = "use spl_program_error::*;\n" + head + "pub enum %s {\n%s\n}\n" % (name, "\n".join(body))
+        with open(os.path.join(labdir, "src", "item_%d.rs" % k), "w") as f:
+            f.write(src)
+        main.append("mod item_%d;" % k)
+        cases.append("enumdesc %s %s %s %s" % (kind, name, start if start is not None else "-",
+                     ",".join("%s:%s:%s" % (vn, disc if disc is not None else "-", ("~" if msg is None else _hexs(msg.encode()))) for vn, disc, msg in vs)))
+    main.append("fn main() {")
+    for k, (kind, name, start, vs) in enumerate(items):
+        ty = "item_%d::%s" % (k, name)
+        main.append("    {")
+        main.append("        let vs: Vec<%s> = vec![%s];" % (ty, ", ".join("%s::%s" % (ty, v[0]) for v in vs)))
+        main.append("        let codes: Vec<String> = vs.iter().map(|v| (v.clone() as u32).to_string()).collect();")
+        main.append("        let tostr: Vec<String> = vs.iter().map(|v| hx(v.to_str())).collect();")
+        if kind != "tostr":
+            main.append("        let disp: Vec<String> = vs.iter().map(|v| hx(&format!(\"{}\", v))).collect();")
+            main.append("        let pe: Vec<String> = vs.iter().map(|v| match ProgramError::from(v.clone()) { ProgramError::Custom(c) => c.to_string(), _ => \"?\".into() }).collect();")
+            main.append("        let look: Vec<String> = vs.iter().map(|v| { let c = v.clone() as u32; match <%s as num_traits::FromPrimitive>::from_u32(c) { Some(x) if x == *v => \"ok\".to_string(), _ => \"bad\".to_string() } }).collect();" % ty)
+            main.append("        println!(\"codes={} pe={} tostr={} display={} lookup={}\", codes.join(\",\"), pe.join(\",\"), tostr.join(\",\"), disp.join(\",\"), look.join(\",\"));")
+        else:
+            main.append("        println!(\"codes={} pe=- tostr={} display=- lookup=-\", codes.join(\",\"), tostr.join(\",\"));")
+        main.append("    }")
+    main.append("}")
+    with open(os.path.join(labdir, "src", "main.rs"), "w") as f:
+        f.write("\n".join(main) + "\n")
+    impl, out = _build_run(labdir, log)
+    res["evaluations"] = len(items)
+    res["distinct_nontrivial"] = sum(1 for it in items if len(it[3]) >= 2)
+    res["samples"] = cases[:3]
+    if impl is None:
+        bad = _failing_items(out)
+        errs = [l for l in out.split("\n") if l.startswith("error")]
+        res["violations"].append("macro-lab C19 does not compile (items %s): %s" % (bad, errs[0] if errs else out[-300:]))
+        res["replay_lines"] = [cases[i] for i in bad if i < len(cases)] or cases[:1]
+        return res
+    model = _model_lines(cases)
+    # oracle: expected values straight from the description
+    for k, (kind, name, start, vs) in enumerate(items):
+        codes, nxt = [], (start if start is not None else 0)
+        for (vn, disc, msg) in vs:
+            c = disc if disc is not None else nxt
+            codes.append(c)
+            nxt = c + 1
+        msgs = [(m if m is not None else "Unknown custom program error") for _, _, m in vs]
+        exp = "codes=%s pe=%s tostr=%s display=%s lookup=%s" % (
+            ",".join(map(str, codes)), "-" if kind == "tostr" else ",".join(map(str, codes)),
+            ",".join(_hexs(m.encode()) for m in msgs), "-" if kind == "tostr" else ",".join(_hexs(m.encode()) for m in msgs),
+            "-" if kind == "tostr" else ",".join("ok" for _ in vs))
+        if impl[k] != exp:
+            res["violations"].append("enum %s (%s): macro output `%s` differs from the declared mapping `%s`" % (name, kind, impl[k][:200], exp[:200]))
+            res["replay_lines"] = [cases[k]]
+        if k < len(model) and model[k] != impl[k]:
+            res["ties_broken"].append("macro-lab C19 item %d: model `%s` vs macro `%s`" % (k, model[k][:160], impl[k][:160]))
+            res.setdefault("replay_lines", [cases[k]])
+        res["items"].append({"kind": kind, "name": name, "variants": len(vs), "ok": impl[k] == exp})
+    # a deliberately wrong hashed start must fail to compile naming the right value
+    wrongdir = os.path.join(BUILD, "macrolab", "C19-wrong")
+    _lab_crate(wrongdir, DEPS_ERR)
+    wname = "Wrong" + _ident(rng)
+    right = _hashed_start(wname)[0]
+    with open(os.path.join(wrongdir, "src", "main.rs"), "w") as f:
+        f.write("use spl_program_error::*;\n#[spl_program_error(hash_error_code_start = %d)]\npub enum %s {\n    #[error(\"a\")]\n    A,\n}\nfn main() {}\n" % (right ^ 1, wname))
+    rc, out = _sh(["cargo", "build", "--offline", "--quiet"], cwd=wrongdir)
+    log.write("$ cargo build (wrong hashed start)\n%s\n" % out[-1500:])
+    res["evaluations"] += 1
+    if rc == 0:
+        res["violations"].append("a wrong declared hash_error_code_start compiled (enum %s, declared %d, right %d)" % (wname, right ^ 1, right))
+        res["replay_lines"] = ["enumdesc spl_hash %s %d A:-:61" % (wname, right ^ 1)]
+    elif str(right) not in out:
+        res["violations"].append("the compile error for a wrong hash_error_code_start does not name the right value %d" % right)
+        res["replay_lines"] = ["enumdesc spl_hash %s %d A:-:61" % (wname, right ^ 1)]
+    res["summary"] = "%d generated enums compiled and run (+1 wrong-start crate must fail)" % len(items)
+    res["histogram"] = {"kinds": {k: sum(1 for it in items if it[0] == k) for k in ("spl", "spl_hash", "derive", "tostr", "spl_crate")}}
+    return res
+
+
+GENERICS = [
+    ("", "", ""),
+    ("<'a>", "<'static>", ""),
+    ("<T>", "<u8>", ""),
+    ("<'b, T>", "<'static, u16>", ""),
+    ("<T: Clone>", "<u8>", ""),
+    ("<T: Clone + Default, U>", "<u8, String>", ""),
+    ("<T> ", "<u32>", "where T: Copy"),
+    ("<T: Clone> ", "<u8>", "where T: Default"),
+    ("<const N: usize>", "<4>", ""),
+    ("<T: Clone, const N: usize = 3>", "<u8, 5>", ""),
+    ("<T = u8>", "<u64>", ""),
+    ("<'a, T: 'a + Clone, const N: usize>", "<'static, u8, 2>", "where T: Default"),
+]
+
+
+def _fields(gen):
+    f = []
+    if "'a" in gen:
+        f.append("r: &'a [u8]")
+    if "'b" in gen:
+        f.append("r: &'b [u8]")
+    if "T" in gen:
+        f.append("t: core::marker::PhantomData<T>")
+    if "U" in gen:
+        f.append("u: core::marker::PhantomData<U>")
+    if "N" in gen:
+        f.append("n: [u8; N]")
+    return f
+
+
+def macro_lab_c18(pid, tier, seed, rundir, log):
+    """C18: #[derive(SplDiscriminate)] on structs/enums x generics x hash-input literals, through rustc."""
+    rng = random.Random(seed * 104729 + 18)
+    labdir = os.path.join(BUILD, "macrolab", "C18")
+    _lab_crate(labdir, 'spl-discriminator = { path = "%s/discriminator" }\n' % REPO)
+    res = {"name": "macro-lab-C18", "items": [], "violations": [], "ties_broken": [], "evaluations": 0,
+           "distinct_nontrivial": 0, "samples": [], "histogram": {}}
+    n = len(GENERICS) * (2 if tier == "thorough" else 1)
+    main = ["#![allow(dead_code, unused, clippy::all)]", "use spl_discriminator::{ArrayDiscriminator, SplDiscriminate};",
+            "fn hx(b: &[u8]) -> String { b.iter().map(|x| format!(\"{:02x}\", x)).collect() }"]
+    cases, calls = [], []
+    for k in range(n):
+        gen, inst, where = GENERICS[k % len(GENERICS)]
+        s = _rand_text(rng, brace_free=False, maxlen=40)
+        lit = _rust_str(s, rng)
+        is_enum = (k % 3 == 2)
+        extra = rng.choice(["", "#[allow(dead_code)]\n", "#[repr(C)]\n"]) if not is_enum else ""
+        fields = _fields(gen)
+        if is_enum:
+            ph = ", ".join(x.split(": ")[1] for x in fields)
+            body = "enum I%d%s %s { A, B(%s) }" % (k, gen, where, ph) if fields else "enum I%d%s %s { A, B }" % (k, gen, where)
+        else:
+            body = "struct I%d%s %s { %s }" % (k, gen, where, ", ".join(fields)) if (fields or where) else "struct I%d%s;" % (k, gen)
+            if not fields and where:
+                body = "struct I%d%s %s {}" % (k, gen, where)
+        src = "use spl_discriminator::SplDiscriminate;\n#[derive(SplDiscriminate)]\n%s#[discriminator_hash_input(%s)]\npub %s\n" % (extra, lit, body)
+        with open(os.path.join(labdir, "src", "item_%d.rs" % k), "w") as f:
+            f.write(src)
+        main.append("mod item_%d;" % k)
+        calls.append("    println!(\"rt={} ct={}\", hx(ArrayDiscriminator::new_with_hash_input(%s).as_slice()), hx(<item_%d::I%d%s as SplDiscriminate>::SPL_DISCRIMINATOR_SLICE));" % (lit, k, k, inst))
+        cases.append("hash %s %s" % (_hexs(s.encode()), _hexs(lit.encode())))
+        res["items"].append({"generics": gen.strip() or "(none)", "where": where, "enum": is_enum})
+    main.append("fn main() {")
+    main += calls
+    main.append("}")
+    with open(os.path.join(labdir, "src", "main.rs"), "w") as f:
+        f.write("\n".join(main) + "\n")
+    impl, out = _build_run(labdir, log)
+    res["evaluations"] = n
+    res["distinct_nontrivial"] = sum(1 for it in res["items"] if it["generics"] != "(none)")
+    res["samples"] = cases[:2] + ["item with generics %s %s" % (GENERICS[9][0], GENERICS[9][2])]
+    if impl is None:
+        bad = _failing_items(out)
+        errs = [l for l in out.split("\n") if l.startswith("error")]
+        res["violations"].append("the SplDiscriminate derive output does not compile for items %s (generics %s): %s" % (
+            bad, [GENERICS[i % len(GENERICS)][0] for i in bad], errs[0] if errs else out[-300:]))
+        res["replay_lines"] = [cases[i] for i in bad if i < len(cases)] or cases[:1]
+        return res
+    model = _model_lines(cases)
+    for k in range(n):
+        exp = hashlib.sha256(bytes.fromhex(cases[k].split()[1]) if cases[k].split()[1] != "-" else b"").digest()[:8].hex()
+        if impl[k] != "rt=%s ct=%s" % (exp, exp):
+            res["violations"].append("item %d: discriminators `%s` differ from SHA-256[..8] = %s" % (k, impl[k], exp))
+            res["replay_lines"] = [cases[k]]
+        if k < len(model) and model[k] != impl[k]:
+            res["ties_broken"].append("macro-lab C18 item %d: model `%s` vs compiled `%s`" % (k, model[k], impl[k]))
+            res.setdefault("replay_lines", [cases[k]])
+    res["summary"] = "%d derived items (struct/enum x %d generic shapes) compiled and run" % (n, len(GENERICS))
+    return res
+
+
+def macro_lab_c15(pid, tier, seed, rundir, log):
+    """C15: #[derive(SplBorshVariableLenPack)] on generic structs/enums, through rustc, against borsh."""
+    rng = random.Random(seed * 15485863 + 15)
+    labdir = os.path.join(BUILD, "macrolab", "C15")
+    _lab_crate(labdir, 'spl-type-length-value = { path = "%s/type-length-value", features = ["derive"] }\nspl-discriminator = { path = "%s/discriminator" }\nborsh = { version = "1", features = ["derive"] }\nsolana-borsh = "3"\nsolana-program-error = "3.0.0"\n' % (REPO, REPO))
+    res = {"name": "macro-lab-C15", "items": [], "violations": [], "ties_broken": [], "evaluations": 0,
+           "distinct_nontrivial": 0, "samples": [], "histogram": {}}
+    shapes = [
+        ("", "", "", "a: u8, s: String", "a: 7, s: \"héllo\".to_string()"),
+        ("<T: BorshSerialize + BorshDeserialize>", "<String>", "", "t: T, n: u32", "t: \"x\".to_string(), n: 9"),
+        ("<T>", "<Vec<u16>>", "where T: BorshSerialize + BorshDeserialize", "t: T, o: Option<u8>", "t: vec![1u16, 2], o: Some(3)"),
+        ("<T: BorshSerialize + BorshDeserialize, U: BorshSerialize + BorshDeserialize>", "<u64, Option<String>>", "", "t: T, u: U", "t: 5u64, u: Some(\"z\".to_string())"),
+        ("<const N: usize>", "<3>", "", "b: [u8; N], v: Vec<u8>", "b: [1, 2, 3], v: vec![4, 5]"),
+        ("<T: BorshSerialize + BorshDeserialize, const N: usize = 2>", "<bool, 2>", "", "t: T, b: [u8; N]", "t: true, b: [8, 9]"),
+    ]
+    main = ["#![allow(dead_code, unused, clippy::all)]", "use spl_type_length_value::variable_len_pack::VariableLenPack;", "use borsh::{BorshSerialize, BorshDeserialize};",
+            "fn hx(b: &[u8]) -> String { if b.is_empty() { \"-\".into() } else { b.iter().map(|x| format!(\"{:02x}\", x)).collect() } }",
+            "fn probe<V: VariableLenPack + BorshSerialize + PartialEq>(v: V) { let e = borsh::to_vec(&v).unwrap(); let l = v.get_packed_len().unwrap(); let mut slot = vec![0xEEu8; e.len() + 3]; v.pack_into_slice(&mut slot).unwrap(); let back = V::unpack_from_slice(&slot).unwrap(); let mut short = vec![0u8; e.len().saturating_sub(1)]; let short_ok = v.pack_into_slice(&mut short).is_ok(); println!(\"len_ok={} bytes_ok={} tail_ok={} back_ok={} short_rejected={}\", l == e.len(), slot[..e.len()] == e[..], slot[e.len()..] == [0xEE, 0xEE, 0xEE], back == v, !short_ok || e.is_empty()); }"]
+    calls = []
+    for k, (gen, inst, where, fields, init) in enumerate(shapes):
+        is_enum = k % 3 == 2
+        if is_enum:
+            body = "pub enum I%d%s %s { A, B { %s } }" % (k, gen, where, fields)
+            val = "item_%d::I%d::%s::B { %s }" % (k, k, inst, init) if inst else "item_%d::I%d::B { %s }" % (k, k, init)
+            val = "item_%d::I%d%s::B { %s }" % (k, k, ("::" + inst) if inst else "", init)
+        else:
+            body = "pub struct I%d%s %s { %s }" % (k, gen, where, ", ".join("pub " + f.strip() for f in fields.split(", ")))
+            val = "item_%d::I%d%s { %s }" % (k, k, ("::" + inst) if inst else "", init)
+        src = ("use borsh::{BorshDeserialize, BorshSerialize};\nuse spl_discriminator::SplDiscriminate;\nuse spl_type_length_value::SplBorshVariableLenPack;\n"
+               "#[derive(Clone, Debug, PartialEq, BorshSerialize, BorshDeserialize, SplBorshVariableLenPack)]\n%s\n" % body)
+        with open(os.path.join(labdir, "src", "item_%d.rs" % k), "w") as f:
+            f.write(src)
+        main.append("mod item_%d;" % k)
+        calls.append("    probe(%s);" % val)
+        res["items"].append({"generics": gen or "(none)", "where": where, "enum": is_enum})
+    main.append("fn main() {")
+    main += calls
+    main.append("}")
+    with open(os.path.join(labdir, "src", "main.rs"), "w") as f:
+        f.write("\n".join(main) + "\n")
+    impl, out = _build_run(labdir, log)
+    res["evaluations"] = len(shapes)
+    res["distinct_nontrivial"] = len(shapes) - 1
+    res["samples"] = ["derive(SplBorshVariableLenPack) on `struct I%d%s %s`" % (k, s[0], s[2]) for k, s in enumerate(shapes[:3])]
+    if impl is None:
+        bad = _failing_items(out)
+        errs = [l for l in out.split("\n") if l.startswith("error")]
+        res["violations"].append("the SplBorshVariableLenPack derive output does not compile for items %s (generics %s): %s" % (
+            bad, [shapes[i][0] for i in bad if i < len(shapes)], errs[0] if errs else out[-300:]))
+        res["replay_lines"] = ["derive-item %d %s %s" % (i, shapes[i][0].replace(" ", "_"), shapes[i][2].replace(" ", "_")) for i in bad if i < len(shapes)] or ["derive-item ?"]
+        return res
+    for k, l in enumerate(impl):
+        if l != "len_ok=true bytes_ok=true tail_ok=true back_ok=true short_rejected=true":
+            res["violations"].append("derived packer of item %d (%s) is not exact: %s" % (k, shapes[k][0], l))
+            res["replay_lines"] = ["derive-item %d %s" % (k, shapes[k][0].replace(" ", "_"))]
+    res["summary"] = "%d derived generic items compiled and compared with borsh" % len(shapes)
+    return res
